@@ -18,7 +18,14 @@ META = dict(
          "the Add/Done/Wait/Push/Close/End events logged by the real iterators (verif hook, per goroutine) are replayed by vm_compute as a "
          "complete run of a well-formed instance of the proved transition system; long streams (3-4 million one-record batches) go through "
          "the worker pool, FilterOn/FilterAnd, DivideOn, Distribute, Rebatch and SortBatches; commands run on inputs larger than the 1 MiB "
-         "reader buffer, several files (empty ones, --no-order), paired files.",
+         "reader buffer, several files (empty ones, --no-order), paired files. Round 3: workers that fail and chained workers (SeqToSliceWorker, "
+         "ChainWorkers: the chain is proved to be two consecutive stages, failures drop the record and nothing else), Count / Consume, the Pipeable glue, "
+         "Rebatch | FilterOn and PairTo | FilterOn / FilterAnd (two rebatching stages of the same size: proved to deliver exactly the selected records / "
+         "pairs), the accessors of batches and iterators, every (files, reader goroutines) pair of the batch-of-files reader with its protocol trace, and "
+         "the list of input files of a command (ExpandListOfFiles: proved on a model of the file system - no file read twice, a named file always read, "
+         "every sequence file below a named directory read, nothing else - and run on real directory trees); the command-line glue (formats given or "
+         "guessed, standard input, header formats, output formats, --compress, --out, paired output files, progress bar, missing file) is judged "
+         "end to end on the commands.",
     note="Trusted: gact_step IS Go's channel/WaitGroup semantics (send on closed / double close / negative counter panic, Wait blocks "
          "while positive, end seen after close); the receive side of the unbuffered channels is abstracted (a push never blocks: a consumer "
          "is alive until the close) and a goroutine that consumes one iterator to feed another is split in a consumer and a producer, so "
@@ -31,7 +38,19 @@ META = dict(
          "data unpairs the fragmented records (oracle only). The data race on the receiver variable re-assigned by `iterator = "
          "iterator.SortBatches()` inside the goroutine of Rebatch/FilterEmpty/DivideOn/Distribute while the caller reads "
          "iterator.IsPaired() is real for the race detector but cannot change an observable (both values carry the same paired mark; the "
-         "paired variants of these combinators are in the generator): recorded, not fixed. The end-to-end grids are judged by the oracle only.")
+         "paired variants of these combinators are in the generator): recorded, not fixed. The end-to-end grids are judged by the oracle only. "
+         "ExpandListOfFiles: the file system is the list of its entries in filepath.Walk order (paths = lists of names; the generator sorts them, the run on a real "
+         "tree ties the two); symbolic links are judged by the oracle only. A record on which a worker fails is dropped with a warning (documented behaviour "
+         "of SeqToSliceWorker); with breakOnError only a failure of the FIRST worker of a chain stops the run (transcribed, theorem C03_chainworkers_failures). "
+         "Not exercised: the nil-iterator guards of Add/Done/Lock/.../BatchSize and Push of a nil batch (log.Panic on a programming error, no stream involved); "
+         "the `for len(Channel()) > 0` loop of WaitAndClose (unreachable: every channel is unbuffered, len is always 0); the Subsequence-error panic of "
+         "IFragments (its arguments are always in range); the nil-reader default and the cannot-open panic of ReadSequencesBatchFromFiles (CLIReadBioSequences "
+         "always passes a reader; a missing file is caught before by ExpandListOfFiles, judged); the content of ecoPCR input (format readers belong to other "
+         "properties; the option is passed on an empty standard input) and the Stat / write-error branches of CLIWriteBioSequences (need a failing device); the error returns of ExpandListOfFiles on a dangling symbolic "
+         "link and of CLIReadBioSequences when a reader refuses a file (the readers call log.Fatal themselves on a truncated file: exit code judged); the "
+         "unreachable default branch of the output header switch. "
+         "Outside the property: a number of reader goroutines of 0 in ReadSequencesBatchFromFiles (nothing is read) cannot come from the command line "
+         "(CLIReadParallelWorkers() >= 1).")
 TRUSTED = ["Go runtime primitives: gact_step (Model.v) is taken as the semantics of channel send/close, WaitGroup Add/Done/Wait and of a receiver "
            "seeing the end of a channel; a goroutine loop is modelled as a fold over its arrival history; rendezvous on the unbuffered channels "
            "is abstracted (pushes never block), so absence of deadlock across composed stages is observed under a deadline, not proved",
@@ -49,7 +68,11 @@ OPS_SINGLE = ["sortbatches", "rebatch", "filterempty", "filteron", "filterand", 
 OPS_R2 = ["split", "speed", "limitmemory", "load", "load_sorted", "completefile", "completefile_sorted", "condworker",
           "condworker_sorted", "sliceworker", "filteron_p", "filterand_p", "pairedwith", "distribute_rebatch", "fragments_p"]
 HARNESS_OP = dict(filteron_p="filteron", filterand_p="filterand", fragments_p="fragments")
-NOT_SENT = ("tag", "malformed", "exhaustive", "nonumbering")
+NOT_SENT = ("tag", "malformed", "exhaustive", "nonumbering", "klass")
+# round 3: the anchored code no earlier case executed (Count / Consume, chained workers and workers returning errors, Pipeable
+# glue, two Rebatch stages of the same size around a filter, accessors, the file-list loader of the commands)
+OPS_R3 = ["count", "consume", "chain", "chain_brk", "cond_err", "cond_err_brk", "pipeparts", "mergepipe", "rebatch_filter", "pairto_filteron", "pairto_filterand",
+          "accessors"]
 
 
 def wire(c):
@@ -112,6 +135,16 @@ def params(rng, c):
 
 CORPUS = [
     # witnesses of the defects (always first)
+    # round 3: a file named on the command line AFTER a directory is silently dropped when its name has no sequence-file extension
+    dict(op="expand", streams=[], tree=[dict(path="d01", kind="d"), dict(path="d01/f01.fasta", kind="f"), dict(path="f02.txt", kind="f")],
+         args=["d01", "f02.txt"], tag="expand-named-file-after-directory"),
+    dict(op="expand", streams=[], tree=[dict(path="d01", kind="d"), dict(path="f02.txt", kind="f")], args=["d01", "f02.txt"],
+         tag="expand-named-file-after-directory"),
+    # round 3: IsNil() of the nil iterator panics instead of answering true; BioSequenceBatch.Pop0 (value receiver) leaves a nil
+    # record at the head of the batch instead of removing the record
+    dict(op="accessors", streams=[], data=[4, 5, 6], size=5, tag="accessors"),
+    dict(op="accessors", streams=[], data=[4], size=0, paired=True, tag="accessors"),
+    dict(op="accessors", streams=[], data=[], size=3, tag="accessors"),
     dict(op="concat_sorted", streams=[[], [dict(o=0, ids=[7]), dict(o=1, ids=[8])]], tag="concat-empty-first"),
     dict(op="concat", streams=[[], [dict(o=0, ids=[7])]], tag="concat-empty-first"),
     dict(op="concat_sorted", streams=[[], [], [dict(o=1, ids=[8]), dict(o=0, ids=[7])], []], tag="concat-empty-first"),
@@ -157,6 +190,53 @@ CORPUS = [
     dict(op="distribute_rebatch", size=2, mod=2, mod2=3, streams=[[dict(o=1, ids=[3, 4, 5, 6, 7]), dict(o=0, ids=[1, 2])]]),
     dict(op="distribute_rebatch", size=1, mod=3, mod2=1, streams=[[]]),
     dict(op="fragments_p", nw=2, size=2, minsize=10, length=10, overlap=2, streams=[[dict(o=0, ids=[3, 9])]]),
+    # round 3 boundary cases
+    dict(op="expand", streams=[], tree=[dict(path="f02.txt", kind="f"), dict(path="d01", kind="d"), dict(path="d01/f01.fasta", kind="f")], args=["f02.txt", "d01"]),
+    dict(op="expand", streams=[], tree=[dict(path="f02.txt", kind="f")], args=["f02.txt", "f02.txt"]),
+    dict(op="expand", streams=[], tree=[dict(path="f02.txt", kind="f")], args=["f02.txt", "f09.fasta"]),
+    dict(op="expand", streams=[], tree=[dict(path="f02.txt", kind="f")], args=[]),
+    dict(op="expand", streams=[], tree=[dict(path="d01", kind="d"), dict(path="d01/d02", kind="d"), dict(path="d01/d02/d03", kind="d"), dict(path="d01/d02/d03/f01.fastq.gz", kind="f"),
+                                        dict(path="d01/d02/f04.txt", kind="f"), dict(path="d01/f00.seq", kind="f")], args=["d01/d02", "d01", "d01/d02/f04.txt"]),
+    dict(op="expand", streams=[], tree=[dict(path="d01", kind="d"), dict(path="d01/f01.fasta", kind="f"), dict(path="d01/f03.txt", kind="f"), dict(path="d05", kind="d"),
+                                        dict(path="d05/f06.gb", kind="f"), dict(path="d01/l02", kind="l", target="d05"), dict(path="l07", kind="l", target="d01/f03.txt"),
+                                        dict(path="l08", kind="l", target="d01")], args=["l07", "l08", "d05"]),
+    dict(op="count", counts=True, streams=[[dict(o=1, ids=[3, 4]), dict(o=2, ids=[]), dict(o=0, ids=[1, 2])]]),
+    dict(op="count", counts=True, streams=[[]]),
+    dict(op="consume", streams=[[dict(o=1, ids=[3, 4]), dict(o=0, ids=[1, 2])]]),
+    dict(op="consume", streams=[[]]),
+    dict(op="chain", nw=2, mod=3, mod2=2, errmod=0, nilw=0, streams=[[dict(o=1, ids=[3, 4, 5, 6, 7]), dict(o=0, ids=[1, 2])]]),
+    dict(op="chain", nw=2, mod=5, mod2=7, errmod=4, nilw=0, streams=[[dict(o=1, ids=[3, 4, 5, 6, 7, 8]), dict(o=0, ids=[1, 2])]]),
+    dict(op="chain", nw=3, mod=5, mod2=7, errmod=4, nilw=1, streams=[[dict(o=1, ids=[3, 4, 5, 6, 7, 8]), dict(o=0, ids=[1, 2])]]),
+    dict(op="chain", nw=1, mod=5, mod2=7, errmod=4, nilw=2, streams=[[dict(o=1, ids=[3, 4, 5, 6, 7, 8]), dict(o=0, ids=[1, 2])]]),
+    dict(op="chain", nw=2, mod=5, mod2=7, errmod=4, nilw=3, streams=[[dict(o=1, ids=[3, 4, 5, 6, 7, 8]), dict(o=0, ids=[1, 2])]]),
+    dict(op="chain_brk", nw=2, mod=5, mod2=7, errmod=4, nilw=0, streams=[[dict(o=1, ids=[4, 5, 6, 8]), dict(o=0, ids=[1, 2])]], tag="the second worker fails: logged, not fatal"),
+    dict(op="chain_brk", nw=2, mod=5, mod2=7, errmod=4, nilw=0, streams=[[dict(o=1, ids=[4, 5, 6, 7, 8]), dict(o=0, ids=[1, 2])]], tag="the first worker fails: fatal"),
+    dict(op="chain_brk", nw=2, mod=5, mod2=7, errmod=4, nilw=1, streams=[[dict(o=0, ids=[1, 2, 4])]], tag="the only worker fails: fatal"),
+    dict(op="pipeparts", nw=2, mod=3, mod2=2, streams=[[dict(o=1, ids=[3, 4, 5, 6, 7]), dict(o=0, ids=[1, 2])]]),
+    dict(op="cond_err", nw=2, mod=5, mod2=1, errmod=4, streams=[[dict(o=1, ids=[3, 4, 5, 6, 7, 8]), dict(o=0, ids=[1, 2])]], tag="the worker fails on 3 and 7: dropped"),
+    dict(op="cond_err", nw=2, mod=5, mod2=2, errmod=4, streams=[[dict(o=1, ids=[3, 4, 5, 6, 7, 8]), dict(o=0, ids=[1, 2])]], tag="3 and 7 are not selected: kept"),
+    dict(op="cond_err_brk", nw=2, mod=5, mod2=2, errmod=4, streams=[[dict(o=1, ids=[3, 4, 5, 6, 7, 8]), dict(o=0, ids=[1, 2])]], tag="no selected record fails"),
+    dict(op="cond_err_brk", nw=2, mod=5, mod2=7, errmod=4, streams=[[dict(o=1, ids=[3, 4, 5, 6, 7, 8]), dict(o=0, ids=[1, 2])]], tag="7 is selected and fails: fatal"),
+    # ill-formed pairs (outside the property; the model predicts the fatal error): the reverse file is shorter
+    dict(op="pairto", size=2, streams=[[dict(o=0, ids=[1, 2, 3])], [dict(o=0, ids=[11, 12])]], trace=False),
+    dict(op="pairto_filteron", size=2, mod=1, nw=2, streams=[[dict(o=0, ids=[1, 2, 3])], [dict(o=0, ids=[11, 12])]], trace=False),
+    dict(op="mergepipe", size=2, streams=[[dict(o=1, ids=[3, 4, 5]), dict(o=0, ids=[1, 2]), dict(o=2, ids=[6])]], nonumbering=True),
+    # a batch of exactly `size` records arrives while a remainder is buffered
+    dict(op="rebatch", size=3, streams=[[dict(o=0, ids=[1]), dict(o=1, ids=[2, 3, 4]), dict(o=2, ids=[5, 6, 7]), dict(o=3, ids=[8, 9])]], klass="aligned"),
+    dict(op="rebatch", size=3, streams=[[dict(o=2, ids=[6, 7, 8]), dict(o=1, ids=[3, 4, 5]), dict(o=0, ids=[1, 2]), dict(o=3, ids=[9])]], klass="aligned"),
+    dict(op="rebatch", size=2, streams=[[dict(o=0, ids=[1]), dict(o=1, ids=[2, 3, 4, 5]), dict(o=2, ids=[]), dict(o=3, ids=[6, 7])]], klass="aligned"),
+    dict(op="rebatch_filter", size=3, mod=1, nw=2, streams=[[dict(o=0, ids=[1]), dict(o=1, ids=[2, 3, 4]), dict(o=2, ids=[5, 6, 7]), dict(o=3, ids=[8, 9])]], klass="aligned"),
+    dict(op="rebatch_filter", size=2, mod=3, nw=3, streams=[[dict(o=1, ids=[3, 4, 5, 6, 7]), dict(o=0, ids=[1, 2])]]),
+    dict(op="pairto_filteron", size=2, mod=2, nw=2, streams=[[dict(o=1, ids=[3, 4, 5, 6, 7]), dict(o=0, ids=[1, 2])], [dict(o=0, ids=[11, 12, 13, 14, 15, 16, 17])]]),
+    dict(op="pairto_filterand", size=2, mod=2, nw=2, streams=[[dict(o=1, ids=[3, 4, 5, 6, 7]), dict(o=0, ids=[1, 2])], [dict(o=0, ids=[11, 12, 13, 14, 15, 16, 18])]]),
+    dict(op="pairto_filterand", size=3, mod=1, nw=2, streams=[[dict(o=0, ids=[1]), dict(o=1, ids=[2, 3, 4]), dict(o=2, ids=[5, 6])], [dict(o=0, ids=[11, 12, 13]), dict(o=1, ids=[14, 15, 16])]], klass="aligned"),
+    dict(op="pairto_filteron", size=2, mod=2, nw=1, streams=[[], []]),
+    dict(op="batchover", paired=True, data=[1, 2, 3, 4, 5], size=2, streams=[]),
+    dict(op="batchover", paired=True, data=[], size=2, streams=[]),
+    # ReadSequencesBatchFromFiles: Add(readers) / one Done per reader, whatever the number of files
+    dict(op="readfiles_par", nw=4, streams=[]),
+    dict(op="readfiles_par", nw=8, streams=[[dict(o=1, ids=[2]), dict(o=0, ids=[1])]]),
+    dict(op="readfiles_par", nw=3, streams=[[dict(o=0, ids=[1])], [dict(o=0, ids=[41])]]),
     # malformed numbering (outside the hypothesis of the property: model correspondence only)
     dict(op="sortbatches", streams=[[dict(o=0, ids=[1]), dict(o=2, ids=[3]), dict(o=3, ids=[4])]], malformed=True),
     dict(op="sortbatches", streams=[[dict(o=1, ids=[1]), dict(o=1, ids=[2]), dict(o=0, ids=[3]), dict(o=2, ids=[4])]], malformed=True),
@@ -195,6 +275,8 @@ def gen_cases(ctx, scale=1):
         for _ in range(nrand if op != "copytee" else nrand // 4):
             cases.append(params(rng, dict(op=op, streams=[rand_history(rng)])))
     for op in PAIRED_OPS:       # paired streams through the combinators that must keep the paired mark and the mates
+        if op == "batchover":      # no input stream: generated with the round-3 cases
+            continue
         for _ in range(max(nrand // 6, 2)):
             if op in ("concat", "concat_sorted", "pool"):
                 streams = [rand_history(rng, 4, 8, 1 + 40 * k) for k in range(rng.randrange(1, 4))]
@@ -246,7 +328,115 @@ def gen_cases(ctx, scale=1):
     for _ in range(4 if ctx.quick else 40):
         n = rng.randrange(1, 10)
         m = rng.choice([k for k in range(0, 12) if k != n])
-        cases.append(params(rng, dict(op="pairto", streams=[history_n(rng, n, 1), history_n(rng, m, 101)])))
+        # no protocol trace: with a longer reverse file the producer of the reverse side stays blocked for ever (transcribed, outside the property)
+        cases.append(params(rng, dict(op="pairto", streams=[history_n(rng, n, 1), history_n(rng, m, 101)], trace=False)))
+    cases += gen_r3(ctx, nrand)
+    return cases
+
+
+def aligned_history(rng, size, first_id=1, maxb=7):
+    """a partition whose batch lengths are 0, 1, size-1, size, size+1 or 2*size: batches of exactly `size` records arrive while a
+    remainder is buffered, batches end exactly on a boundary, ... (classes a uniformly random partition rarely produces for size >= 3)"""
+    nb = rng.randrange(2, maxb + 1)
+    lens = [rng.choice([0, 1, max(size - 1, 0), size, size, size, size + 1, 2 * size]) for _ in range(nb)]
+    if size not in lens[1:]:
+        lens[rng.randrange(1, nb)] = size
+    if rng.random() < 0.7 and lens[0] % max(size, 1) == 0:
+        lens[0] = rng.choice([1, max(size - 1, 1)])       # a remainder is buffered when the full batches arrive
+    parts, nxt = [], first_id
+    for n in lens:
+        parts.append(list(range(nxt, nxt + n)))
+        nxt += n
+    perm = list(range(nb))
+    if rng.random() < 0.5:
+        rng.shuffle(perm)
+    return history(parts, perm)
+
+
+EXT_OK = ("fasta", "fasta.gz", "fastq", "fastq.gz", "seq", "seq.gz", "gb", "gb.gz", "dat", "dat.gz", "ecopcr", "ecopcr.gz")
+EXTS = [".fasta", ".fastq", ".fasta.gz", ".seq", ".gb", ".dat.gz", ".ecopcr", ".txt", ".fa", ".fastq.bak", "", ".txt", ".fasta"]
+
+
+def rand_tree(rng):
+    """a directory tree: names f<NN><ext> (regular files) and d<NN> (directories), the numbers distinct among siblings"""
+    tree = []
+    def fill(prefix, depth):
+        nums = rng.sample(range(0, 30), rng.randrange(0, 6))
+        for k in nums:
+            if depth < 3 and rng.random() < 0.3:
+                p = "%sd%02d" % (prefix, k)
+                tree.append(dict(path=p, kind="d"))
+                fill(p + "/", depth + 1)
+            else:
+                tree.append(dict(path="%sf%02d%s" % (prefix, k, rng.choice(EXTS)), kind="f"))
+    fill("", 0)
+    return tree
+
+
+def gen_r3(ctx, nrand):
+    rng = ctx.rng
+    cases = []
+    n3 = max(nrand // 2, 4)
+    for op in OPS_R3:
+        for _ in range(n3 if op not in ("consume", "accessors") else n3 // 3):
+            c = dict(op=op, streams=[rand_history(rng)])
+            if op == "count":
+                c["counts"] = True
+            if op in ("chain", "chain_brk"):
+                c.update(errmod=rng.choice([0, 0, 4, 5, 7, 11] if op == "chain" else [0, 5, 7, 11, 13, 29]), nilw=rng.choice([0, 0, 0, 1, 2, 3]),
+                         mod=rng.choice([2, 3, 4, 5, 6]), mod2=rng.choice([2, 3, 5, 7]))
+            if op in ("cond_err", "cond_err_brk"):
+                c.update(errmod=rng.choice([0, 4, 5, 7] if op == "cond_err" else [0, 5, 7, 11, 13, 29]), mod=rng.choice([2, 3, 4, 5, 6]), mod2=rng.choice([1, 2, 3]))
+            if op == "mergepipe":
+                c["streams"] = [[b for b in c["streams"][0] if b["ids"]]]
+                c["nonumbering"] = True
+            if op in ("pairto_filteron", "pairto_filterand"):
+                n = rng.randrange(0, 16)
+                c["streams"] = [history_n(rng, n, 1), history_n(rng, n, 101)]
+            if op == "accessors":
+                n = rng.choice([0, 1, 2, 5])
+                c.update(streams=[], data=[rng.randrange(1, 400) for _ in range(n)], paired=rng.random() < 0.5, size=rng.choice([0, 1, 7, 5000]))
+            cases.append(params(rng, c))
+    # input class: batch lengths aligned on the batch size (rebatching stages, alone and composed)
+    for op in ("rebatch", "rebatch_filter", "filteron", "filterand_p", "divideon", "distribute", "pipeline", "pairto_filterand", "pairto", "distribute_rebatch"):
+        for _ in range(n3):
+            size = rng.choice([1, 2, 3, 3, 4, 5, 8])
+            c = dict(op=op, size=size, klass="aligned", streams=[aligned_history(rng, size)], mod=rng.choice([1, 1, 2, 3]))
+            if op in ("pairto_filterand", "pairto"):
+                n = len(recs(c["streams"][0]))
+                parts, left = [], n
+                while left > 0:
+                    k = min(left, rng.choice([1, size, size, size + 1, 2 * size]))
+                    parts.append(list(range(101 + n - left, 101 + n - left + k)))
+                    left -= k
+                perm = list(range(len(parts)))
+                rng.shuffle(perm)
+                c["streams"].append(history(parts, perm))
+            cases.append(params(rng, c))
+    # input class: every (number of files, number of reader goroutines) pair of the batch-of-files reader
+    for nf in range(0, 7):
+        for nr in range(1, 9):
+            if ctx.quick and rng.random() < 0.5 and nf not in (0, 1) and nr not in (1, 8):
+                continue
+            streams = [([] if rng.random() < 0.25 else rand_history(rng, 3, 6, 1 + 40 * k)) for k in range(nf)]
+            cases.append(params(rng, dict(op="readfiles_par", nw=nr, streams=streams, klass="files-x-readers", trace=True)))
+    # IBatchOver on paired data
+    for _ in range(max(n3 // 3, 2)):
+        n = rng.choice([0, 1, 2, 3, 5, 8, 13])
+        cases.append(params(rng, dict(op="batchover", paired=True, data=list(range(1, n + 1)), streams=[])))
+    # the file-list loader of the commands on real directory trees
+    for _ in range(2 * n3):
+        tree = rand_tree(rng)
+        paths = [n["path"] for n in tree]
+        args = [rng.choice(paths) for _ in range(rng.randrange(0, 5))] if paths else []
+        if rng.random() < 0.15:
+            args.insert(rng.randrange(len(args) + 1), "f99.fasta")       # no such file
+        if rng.random() < 0.25 and paths:                                  # some symbolic links (judged by the oracle only)
+            for k in range(rng.randrange(1, 3)):
+                name = "l%02d" % (40 + k)
+                tree.append(dict(path=name, kind="l", target=rng.choice(paths)))
+                args.insert(rng.randrange(len(args) + 1), name)
+        cases.append(params(rng, dict(op="expand", streams=[], tree=tree, args=args)))
     return cases
 
 
@@ -306,7 +496,7 @@ def chunked(bs, size, what):
 
 
 PAIRED_OPS = ("sortbatches", "rebatch", "filterempty", "divideon", "concat", "concat_sorted", "pool", "worker_sorted", "completefile_sorted",
-              "speed", "limitmemory", "copytee")
+              "speed", "limitmemory", "copytee", "batchover")
 
 
 def oracle(c, o):
@@ -316,6 +506,8 @@ def oracle(c, o):
         # a paired stream stays paired through the combinator: the output iterators are marked paired (the writers
         # decide on that mark whether the file of mates is written) and every record is still linked to its mate
         for x in o["outs"]:
+            if c["op"] == "batchover" and not c["data"]:
+                continue        # an empty slice carries no pairing
             if not x.get("paired"):
                 return "%s on a paired stream returns an iterator that is not marked paired (output %d)" % (c["op"], x["key"])
             for b in x["batches"]:
@@ -333,8 +525,20 @@ def oracle_core(c, o):
         return "harness process crashed or hung: " + o.get("err", "")[-200:]
     if o["kind"] == "panic":
         return "panic: " + o.get("panic", "")
-    if op == "pairto" and len(recs(c["streams"][0])) != len(recs(c["streams"][1])):
+    if op in ("pairto", "pairto_filteron", "pairto_filterand") and len(recs(c["streams"][0])) != len(recs(c["streams"][1])):
         return None
+    if op == "expand":
+        exp = expand_ref(c["tree"], c["args"])
+        got = None if o.get("err") else o.get("files", [])
+        if got != exp:
+            return "ExpandListOfFiles%s: got %s expected %s (every file named on the command line, the sequence files of every directory named on it, each once, in order)" % (c["args"], got, exp)
+        return None
+    if op in ("chain", "chain_brk"):
+        fails, exp = chain_ref(c)
+        if op == "chain_brk" and fails:
+            return None if o.get("fatal") else "a worker failed on a record and breakOnError is set: the run must stop (log.Fatal), it went on"
+    if op == "cond_err_brk" and cond_ref(c)[0]:
+        return None if o.get("fatal") else "the worker failed on a selected record and breakOnError is set: the run must stop (log.Fatal), it went on"
     if o.get("fatal"):
         return "log.Fatal called"
     if not o["term"]:
@@ -430,6 +634,8 @@ def oracle_core(c, o):
         e = same(o.get("news", []), keys, "announced keys") or same(sorted(outs), sorted(keys), "output streams")
         if e:
             return e
+        if not o.get("unk"):
+            return "distribute: Outputs(key) of a key that was never announced must be an error"
         for k in keys:
             e = same(flat(outs[k]), [i for i in r if i % mod == k], "stream of key %d" % k) or chunked(outs[k], size, "stream of key %d" % k)
             if e:
@@ -476,7 +682,42 @@ def oracle_core(c, o):
     if op == "pipeline":
         exp = [j for i in recs(S[0]) for j in wf(c["mod"], i) if pred(c["mod2"], j)]
         return same(flat(out0), exp, "records") or chunked(out0, size, "pipeline")
-    if op == "merge":
+    if op == "count":
+        r = recs(S[0])
+        return same(noextra(out0), [dict(o=0, ids=[len(r), sum(i % 3 + 1 for i in r), sum(1 + (7 * i) % 61 for i in r)])], "(variants, reads, nucleotides)")
+    if op == "consume":
+        return same(out0, [], "batches")
+    if op in ("chain", "chain_brk"):
+        fails, exp = chain_ref(c)
+        return same(out0, exp, "delivered batches")
+    if op in ("cond_err", "cond_err_brk"):
+        return same(out0, cond_ref(c)[1], "delivered batches")
+    if op == "pipeparts":
+        exp = [dict(o=b["o"], ids=[k for i in b["ids"] for j in wf(c["mod"], i) for k in wf(c["mod2"], j)]) for b in sorted(S[0], key=lambda b: b["o"])]
+        return same(out0, exp, "delivered batches")
+    if op == "rebatch_filter":
+        return same(flat(out0), [i for i in recs(S[0]) if pred(c["mod"], i)], "records") or chunked(out0, size, op)
+    if op in ("pairto_filteron", "pairto_filterand"):
+        a, b = recs(S[0]), recs(S[1])
+        kept = [(x, y) for x, y in zip(a, b) if pred(c["mod"], x) and (op == "pairto_filteron" or pred(c["mod"], y))]
+        if not o["outs"][0].get("paired"):
+            return "%s returns an iterator that is not marked paired" % op
+        return (same(flat(out0), [x for x, _ in kept], "forward records") or same([i for x in out0 for i in x.get("pids", [])], [y for _, y in kept], "paired mates") or
+                chunked(out0, size, op))
+    if op == "accessors":
+        d = c["data"]
+        ne = 1 if d else 0
+        exp = [ne, ne if c.get("paired") else 0, 0, 0, 1, size + 1, 0, size + 1, 1, 0, d[0] + 1 if d else 0, 1]
+        names = ["batch.NotEmpty()", "batch.IsPaired()", "IsNil() of a live iterator", "BatchSize()+1 of a new iterator", "SetBatchSize(size) accepted",
+                 "BatchSize()+1 after it", "SetBatchSize(-1) accepted", "BatchSize()+1 after it", "IsNil() of the nil iterator (2 = panic)",
+                 "IsPaired() after UnPair()", "id+1 of the record returned by Pop0", "a chained worker on a nil record gives no record and no error"]
+        got = flat(out0)
+        for k, (g, e) in enumerate(zip(got, exp)):
+            if g != e:
+                return "accessors: %s is %d, expected %d" % (names[k], g, e)
+        return (same(len(got), len(exp), "number of answers") or same(outs.get(1), [], "batches of the iterator closed by Add/Done/WaitAndClose") or
+                same(noextra(outs.get(2, [])), [dict(o=7, ids=d[1:])], "the batch after Pop0 (Pop0 returns AND removes the first record)"))
+    if op in ("merge", "mergepipe"):
         return same(flat(out0), [b["ids"][0] for b in S[0]], "merged records (one per input batch, arrival order)") or chunked(out0, size, "merge")
     if op in ("fragments", "fragments_p"):
         e = chunked(out0, size, "fragments")
@@ -515,10 +756,77 @@ def oracle_core(c, o):
     return "unknown op"
 
 
+def chain_ref(c):
+    """(some record makes the chained worker fail, expected batches) for MakeIWorker(w1.ChainWorkers(w2), breakOnError)"""
+    e, nilw = c.get("errmod", 0), c.get("nilw", 0)
+    w1 = None if nilw & 1 else (lambda i: None if e > 0 and i % e == 3 else wf(c["mod"], i))
+    w2 = None if nilw & 2 else (lambda i: None if e > 0 and i % e == 4 else wf(c["mod2"], i))
+    if w1 and w2:
+        def w(i):
+            r = w1(i)
+            return None if r is None else [k for j in r for k in (w2(j) or [])]      # a failure of the second worker is logged and dropped
+    else:
+        w = w1 or w2 or (lambda i: [i])
+    fails = any(w(i) is None for i in recs(c["streams"][0]))
+    return fails, [dict(o=b["o"], ids=[k for i in b["ids"] for k in (w(i) or [])]) for b in sorted(c["streams"][0], key=lambda b: b["o"])]
+
+
+def cond_ref(c):
+    """(the worker fails on some selected record, expected batches) for MakeIConditionalWorker(id mod mod2 == 0, worker failing on id mod errmod == 3)"""
+    e = c.get("errmod", 0)
+    bad = lambda i: e > 0 and i % e == 3
+    sel = lambda i: pred(c["mod2"], i)
+    fails = any(sel(i) and bad(i) for i in recs(c["streams"][0]))
+    return fails, [dict(o=b["o"], ids=[j for i in b["ids"] for j in (([] if bad(i) else wf(c["mod"], i)) if sel(i) else [i])]) for b in sorted(c["streams"][0], key=lambda b: b["o"])]
+
+
+def ext_ok(path):
+    return any(path.endswith(x) for x in EXT_OK)
+
+
+def expand_ref(tree, args):
+    """the list of files of the command line: for every argument in order — a regular file: itself, whatever its name; a directory: the files
+    below it that have a sequence-file extension, in lexical order, sub-directories included; symbolic links are followed; each path once,
+    at its first occurrence; None: some argument does not exist"""
+    nodes = {n["path"]: n for n in tree}
+    def resolve(p):
+        for _ in range(20):
+            n = nodes.get(p)
+            if n is None or n["kind"] != "l":
+                return p
+            p = n["target"]
+        return p
+    def children(d):
+        return sorted((p for p in nodes if p.startswith(d + "/") and "/" not in p[len(d) + 1:]), key=lambda p: p.split("/"))
+    out = []
+    def add(p):
+        if p not in out:
+            out.append(p)
+    def walk(d):
+        for ch in children(d):
+            q = resolve(ch)
+            if nodes[q]["kind"] == "d":
+                walk(q)
+            elif ext_ok(q):
+                add(q)
+    for a in args:
+        if a not in nodes:
+            return None
+        q = resolve(a)
+        if nodes[q]["kind"] == "d":
+            walk(q)
+        else:
+            add(q)
+    return out
+
+
 KNOWN_KEYS = {"concat-empty-first": "Concat: when the first stream(s) are empty the output batches are numbered from 1, so SortBatches and every ordered consumer downstream deliver nothing",
               "batchover-empty": "IBatchOver panics on an empty slice (data.IsPaired() indexes element 0)",
               "readfiles-order": "ReadSequencesBatchFromFiles renumbers the batches of each file in ARRIVAL order: with several input files the records of a file are reordered whenever its parser workers deliver batches out of order",
-              "copytee-close": "CopyTee never calls Done on its first output: neither output is ever closed, consumers hang"}
+              "copytee-close": "CopyTee never calls Done on its first output: neither output is ever closed, consumers hang",
+              "expand-named-file-after-directory": "ExpandListOfFiles: once a directory has been met on the command line, the files NAMED after it are silently "
+                                                   "dropped unless their name has a sequence-file extension (check_ext stays set)",
+              "accessors": "IsNil() panics on the nil iterator / BioSequenceBatch.Pop0 leaves a nil record in the batch"}
 
 
 def known_key(c, o):
@@ -530,6 +838,10 @@ def known_key(c, o):
         return "batchover-empty"
     if c["op"] == "copytee" and o["kind"] == "ok" and not o["term"]:
         return "copytee-close"
+    if c["op"] == "expand":
+        return "expand-named-file-after-directory"
+    if c["op"] == "accessors":
+        return "accessors"
     return None
 
 
@@ -547,7 +859,7 @@ OPC = dict(split="OSplit", speed="OForward", limitmemory="OForward", load="OLoad
            filteron_p="OFilterOnP", filterand_p="OFilterAndP", pairedwith="OPairedWith", distribute_rebatch="ODistRebatch", source="OSource", sortbatches="OSort", rebatch="ORebatch", filterempty="OFilterEmpty", filteron="OFilterOn",
            filterand="OFilterOn", divideon="ODivideOn", distribute="ODistribute", concat="OConcat", concat_sorted="OConcatSorted",
            pool="OPool", worker="OWorker", worker_sorted="OWorkerSorted", batchover="OBatchOver", copytee="OCopyTee",
-           pipeline="OPipeline", readfiles="OReadFiles", readfiles_par="OReadFilesPar", pairto="OPairTo", fragments="OFragments", fragments_p="OFragments", merge="OMerge")
+           pipeline="OPipeline", readfiles="OReadFiles", readfiles_par="OReadFilesPar", pairto="OPairTo", fragments="OFragments", fragments_p="OFragments", merge="OMerge", mergepipe="OMerge")
 
 
 def case_term(c, o):
@@ -566,6 +878,44 @@ def case_term(c, o):
     return "mkc %s %s %s %d %d%%N %d%%N %s %s [%s] %s" % (opc, streams, nl(c.get("data") or []), c.get("size", 1), max(c.get("mod", 1), 1),
                                                    max(c.get("mod2", 1), 1), kind, outs, ";".join(str(k) for k in o.get("news") or []), fouts)
 
+
+
+IMPORTS3 = IMPORTS + "From OBI.C03 Require Import Model3.\n"
+OPC3 = dict(count="OCount", consume="OConsume", pipeparts="OPipeParts", rebatch_filter="ORebatchFilter", pairto_filteron="(OPairToFilter false)",
+            pairto_filterand="(OPairToFilter true)")
+
+
+def case_term3(c, o):
+    op = c["op"]
+    outs = "[" + ";".join("(%d,%s)" % (x["key"], hist([dict(o=b["o"], ids=[max(i, 0) for i in b["ids"]]) for b in x["batches"]])) for x in o["outs"]) + "]"
+    if op in ("pairto_filteron", "pairto_filterand"):      # key 0: the records, key 1: the mates they are linked to
+        bs = o["outs"][0]["batches"] if o["outs"] else []
+        outs = "[(0,%s);(1,%s)]" % (hist(bs), hist([dict(o=b["o"], ids=b.get("pids") or []) for b in bs]))
+    if op in ("chain", "chain_brk"):
+        opc = "(OChain %d%%N %d %s)" % (c.get("errmod", 0), c.get("nilw", 0), "true" if op == "chain_brk" else "false")
+    elif op in ("cond_err", "cond_err_brk"):
+        opc = "(OCondErr %d%%N %s)" % (c.get("errmod", 0), "true" if op == "cond_err_brk" else "false")
+    elif op == "accessors":
+        opc = "(OAccessors %s)" % ("true" if c.get("paired") else "false")
+        if any(i < 0 for x in o["outs"] for b in x["batches"] for i in b["ids"]):     # a nil record: no model value
+            outs = "[]"
+    else:
+        opc = OPC3[op]
+    kind = "KPanic" if o["kind"] == "panic" else ("KFatal" if o.get("fatal") else ("KOk" if o["term"] else "KHang"))
+    return "mkc3 %s %s %s %d %d%%N %d%%N %s %s" % (opc, "[" + ";".join(hist(h) for h in c["streams"]) + "]", nl(c.get("data") or []), c.get("size", 1),
+                                                 max(c.get("mod", 1), 1), max(c.get("mod2", 1), 1), kind, outs)
+
+
+def path_term(p):
+    """a path as the list of the numbers of its names (f07.fasta -> 7, d03 -> 3: distinct among siblings by construction)"""
+    return nl([int(re.sub(r"[^0-9].*$", "", x[1:])) for x in p.split("/")])
+
+
+def expand_term(c, o):
+    tree = sorted(c["tree"], key=lambda n: n["path"].split("/"))       # the order in which filepath.Walk visits the entries
+    t = "[" + ";".join("(%s,%s,%s)" % (path_term(n["path"]), "true" if n["kind"] == "d" else "false", "true" if ext_ok(n["path"]) else "false") for n in tree) + "]"
+    obs = "None" if o.get("err") else "(Some [%s])" % ";".join(path_term(f) for f in o.get("files", []))
+    return "(%s,[%s],%s)" % (t, ";".join(path_term(a) for a in c["args"]), obs)
 
 
 # ----------------------------------------------------------------------------------------------- end to end (commands)
@@ -791,6 +1141,250 @@ def e2e2(ctx, broken):
     ctx.cov["e2e2_grid"] = ("obiconvert / obigrep / obiannotate / obidistribute -c / obipairing / paired obiconvert and obigrep (--paired-with, _R1/_R2 files) on "
                             "inputs of 1.2-2.5 MiB (several 1 MiB reader chunks), several files incl. an empty one, --no-order, x --max-cpu x --batch-size")
 
+
+# ----------------------------------------------------------------------------------------------- end to end, round 3: the command-line glue
+def gb_record(i, q):
+    lines = ["LOCUS       %-16s %d bp    DNA     linear   UNA 01-JAN-2000" % (i, len(q)), "DEFINITION  definition of %s." % i, "SOURCE      Homo sapiens",
+             "FEATURES             Location/Qualifiers", "     source          1..%d" % len(q), '                     /db_xref="taxon:9606"', "ORIGIN"]
+    for k in range(0, len(q), 60):
+        ch = q[k:k + 60]
+        lines.append("%9d %s" % (k + 1, " ".join(ch[j:j + 10] for j in range(0, len(ch), 10))))
+    return "\n".join(lines + ["//"]) + "\n"
+
+
+def embl_record(i, q):
+    lines = ["ID   %s; SV 1; linear; genomic DNA; STD; UNC; %d BP." % (i, len(q)), "XX", "DE   definition of %s" % i, "XX", "OS   Homo sapiens",
+             "FH   Key             Location/Qualifiers", "FH", "FT   source          1..%d" % len(q), 'FT                   /db_xref="taxon:9606"', "XX",
+             "SQ   Sequence %d BP;" % len(q)]
+    for k in range(0, len(q), 60):
+        ch = q[k:k + 60]
+        lines.append("     %-66s%9d" % (" ".join(ch[j:j + 10] for j in range(0, len(ch), 10)), min(k + 60, len(q))))
+    return "\n".join(lines + ["//"]) + "\n"
+
+
+def e2e3_files(ctx, wd):
+    """small inputs in every format the reader glue knows + a directory tree + a file without a sequence-file extension"""
+    import shutil
+    rng = ctx.rng
+    shutil.rmtree(wd, ignore_errors=True)
+    os.makedirs(os.path.join(wd, "D", "sub"))
+    os.makedirs(os.path.join(wd, "emptydir", "sub"))
+    def mk(prefix, n):
+        return [("%s%d" % (prefix, k + 1), "".join(rng.choices("acgt", k=rng.randrange(12, 150)))) for k in range(n)]
+    R = dict(A=mk("a", 60), Q=mk("q", 45), G=mk("g", 23), E=mk("e", 21), X=mk("x", 9), Y=mk("y", 7), N=mk("n", 3), T=mk("t", 5), P1=mk("p", 33))
+    R["P2"] = [(i, "".join(rng.choices("acgt", k=rng.randrange(12, 90)))) for i, _ in R["P1"]]
+    fa = lambda r: "".join('>%s {"k":%d}\n%s\n' % (i, n, q) for n, (i, q) in enumerate(r))
+    fq = lambda r: "".join("@%s\n%s\n+\n%s\n" % (i, q, "I" * len(q)) for i, q in r)
+    texts = {"A.fasta": fa(R["A"]), "A_obi.fasta": "".join(">%s k=%d; some definition\n%s\n" % (i, n, q) for n, (i, q) in enumerate(R["A"])),
+             "Q.fastq": fq(R["Q"]), "G.gb": "".join(gb_record(i, q) for i, q in R["G"]), "E.embl": "".join(embl_record(i, q) for i, q in R["E"]),
+             "D/x.fasta": fa(R["X"]), "D/sub/y.fasta": fa(R["Y"]), "D/notes.txt": fa(R["N"]), "T.txt": fa(R["T"]), "empty.fasta": "",
+             "P1.fastq": fq(R["P1"]), "P2.fastq": fq(R["P2"]), "emptydir/readme.txt": fa(R["N"]), "bad.gz": "\x1f\x8b\x08garbage"}
+    for fn, t in texts.items():
+        open(os.path.join(wd, fn), "w", encoding="latin1").write(t)
+    return R, texts
+
+
+def e2e3_cases(ctx, R):
+    ids = {k: [i for i, _ in v] for k, v in R.items()}
+    C = []
+    def add(cmd, args, exp, stdin=None, out=None, fmt="fasta", rc0=True, tty=False, attrs=None, gz=False):
+        C.append(dict(cmd=cmd, args=args, exp=exp, stdin=stdin, out=out, fmt=fmt, rc0=rc0, tty=tty, attrs=attrs, gz=gz))
+    # the list of files: directories, a named file without extension before / after a directory, a file named twice, a missing file
+    add("obiconvert", ["D"], ids["Y"] + ids["X"])
+    add("obiconvert", ["D", "T.txt"], ids["Y"] + ids["X"] + ids["T"])
+    add("obiconvert", ["T.txt", "D"], ids["T"] + ids["Y"] + ids["X"])
+    add("obiconvert", ["D/sub", "T.txt", "D", "A.fasta"], ids["Y"] + ids["T"] + ids["X"] + ids["A"])
+    add("obiconvert", ["T.txt", "T.txt"], ids["T"])
+    add("obiconvert", ["--no-order", "T.txt", "D"], None, fmt="set:" + ",".join(ids["T"] + ids["Y"] + ids["X"]))
+    add("obiconvert", ["A.fasta", "missing.fasta"], [], rc0=False)
+    add("obiconvert", ["missing.fasta"], [], rc0=False)
+    add("obiconvert", ["emptydir"], [])           # a directory without any sequence file: an empty input, not a crash
+    add("obiconvert", ["emptydir", "T.txt"], ids["T"])
+    add("obiconvert", ["bad.gz"], [], rc0=False)      # a truncated gzip file / standard input: reported, non-zero exit code
+    add("obiconvert", ["--genbank"], [], stdin="bad.gz", rc0=False)
+    add("obigrep", ["-l", "50", "D", "T.txt"], [i for k in ("Y", "X", "T") for i, q in R[k] if len(q) >= 50])
+    # input formats, files and standard input; header formats
+    for opt, fn, key in (("--genbank", "G.gb", "G"), ("--embl", "E.embl", "E"), ("--fastq", "Q.fastq", "Q"), ("--fasta", "A.fasta", "A")):
+        add("obiconvert", [opt, fn], ids[key], fmt="fastq" if key == "Q" else "fasta")
+        add("obiconvert", [fn], ids[key], fmt="fastq" if key == "Q" else "fasta")
+        add("obiconvert", [opt], ids[key], stdin=fn, fmt="fastq" if key == "Q" else "fasta")
+        add("obiconvert", [opt], [], stdin="empty.fasta")
+    add("obiconvert", [], ids["A"], stdin="A.fasta")
+    add("obiconvert", [], ids["Q"], stdin="Q.fastq", fmt="fastq")
+    add("obiconvert", [], [], stdin="empty.fasta")
+    add("obiconvert", ["--ecopcr"], [], stdin="empty.fasta")
+    add("obiconvert", ["G.gb", "E.embl", "A.fasta"], ids["G"] + ids["E"] + ids["A"])
+    add("obiconvert", ["--fasta", "--input-OBI-header", "A_obi.fasta"], ids["A"], attrs="k")
+    add("obiconvert", ["--input-json-header", "A.fasta"], ids["A"], attrs="k")
+    add("obiconvert", ["A_obi.fasta"], ids["A"], attrs="k")
+    # output formats, header formats, compression, output file, progress bar (stderr is a character device)
+    add("obiconvert", ["-O", "A.fasta"], ids["A"])
+    add("obiconvert", ["--output-json-header", "A_obi.fasta"], ids["A"], attrs="k")
+    add("obiconvert", ["--fasta-output", "Q.fastq"], ids["Q"])
+    add("obiconvert", ["--fastq-output", "Q.fastq"], ids["Q"], fmt="fastq")
+    add("obiconvert", ["--json-output", "A.fasta"], ids["A"], fmt="json")
+    add("obiconvert", ["-Z", "A.fasta"], ids["A"], gz=True)
+    add("obiconvert", ["-Z", "--fastq-output", "Q.fastq"], ids["Q"], fmt="fastq", gz=True)
+    for extra, fmt, fn in ((["--fasta-output"], "fasta", "o.fasta"), (["--fastq-output"], "fastq", "o.fastq"), (["--json-output"], "json", "o.json"), ([], "fastq", "o.any")):
+        add("obiconvert", extra + ["Q.fastq", "-o", "@" + fn], ids["Q"], out=[fn], fmt=fmt)
+    add("obiconvert", ["-Z", "A.fasta", "--out", "@o.fasta.gz"], ids["A"], out=["o.fasta.gz"], gz=True)
+    add("obiconvert", ["A.fasta", "Q.fastq"], ids["A"] + ids["Q"], tty=True)
+    add("obiconvert", ["--no-progressbar", "A.fasta"], ids["A"], tty=True)
+    add("obigrep", ["-l", "60", "A.fasta"], [i for i, q in R["A"] if len(q) >= 60], tty=True)
+    # paired files, each output format
+    for extra, fmt, fn in ((["--fasta-output"], "fasta", "p.fasta"), (["--fastq-output"], "fastq", "p.fastq"), (["--json-output"], "json", "p.json")):
+        r1, r2 = fn.replace("p.", "p_R1."), fn.replace("p.", "p_R2.")
+        add("obiconvert", extra + ["--paired-with", "P2.fastq", "P1.fastq", "-o", "@" + fn], ids["P1"], out=[r1, r2], fmt=fmt)
+    add("obiconvert", ["--paired-with", "missing.fastq", "P1.fastq", "-o", "@p.fastq"], [], rc0=False)
+    # obiannotate chains one worker per option (ChainWorkers)
+    add("obiannotate", ["--length", "--rename-tag", "j=k", "A.fasta"], ids["A"], attrs="chain")
+    add("obiannotate", ["--length", "-l", "60", "--rename-tag", "j=k", "A.fasta"], ids["A"], attrs="cond60")
+    return C
+
+
+def parse_out(text, fmt):
+    """[(id, {attributes}, sequence)] of a fasta / fastq / json output"""
+    if fmt == "json":
+        return [(r["id"], r.get("annotations") or {}, r.get("sequence", "")) for r in json.loads(text or "[]")]
+    lines = text.splitlines()
+    res = []
+    if fmt == "fastq":
+        for k in range(0, len(lines) - 3, 4):
+            res.append((lines[k], lines[k + 1]))
+    else:
+        for l in lines:
+            if l.startswith(">"):
+                res.append((l, ""))
+            elif res:
+                res[-1] = (res[-1][0], res[-1][1] + l)
+    out = []
+    for h, q in res:
+        i = h[1:].split()[0] if len(h) > 1 else ""
+        a = {}
+        m = re.search(r"\{.*\}", h)
+        if m:
+            try:
+                a = json.loads(m.group(0))
+            except ValueError:
+                a = {}
+        else:
+            for kv in re.findall(r"(\w+)=([^;]*);", h):
+                a[kv[0]] = int(kv[1]) if kv[1].strip().lstrip("-").isdigit() else kv[1]
+        out.append((i, a, q))
+    return out
+
+
+def e2e3_run(bindir, wd, R, c, k):
+    import subprocess, gzip, shutil
+    od = os.path.join(wd, "out%d" % k)
+    shutil.rmtree(od, ignore_errors=True)
+    os.makedirs(od)
+    args = [os.path.join(od, a[1:]) if a.startswith("@") else (os.path.join(wd, a) if os.path.exists(os.path.join(wd, a)) or a.startswith("missing") else a) for a in c["args"]]
+    seqs = {i: q for v in R.values() for i, q in v if not i.startswith("p")}
+    def once(timeout):
+        with open(os.path.join(wd, c["stdin"]) if c["stdin"] else os.devnull, "rb") as fin, open(os.devnull, "wb") as null:
+            try:
+                p = subprocess.run([os.path.join(bindir, c["cmd"])] + args, stdin=fin, stdout=subprocess.PIPE, stderr=null if c["tty"] else subprocess.PIPE, timeout=timeout)
+                return p.returncode, p.stdout, (p.stderr or b"").decode("latin1")
+            except subprocess.TimeoutExpired:
+                return 124, b"", ""
+    rc, out, err = once(60)
+    if rc == 124:
+        rc, out, err = once(180)
+    obs = dict(rc=rc)
+    if rc == 124:
+        return obs, "termination: the command did not finish within 60 s"
+    if not c["rc0"]:
+        got = parse_out(out.decode("latin1"), "fasta")
+        obs["n_stdout"] = len(got)
+        if rc == 0:
+            return obs, "an input file that cannot be opened must end the command with a non-zero exit code"
+        return obs, (None if not got else "output produced although an input file cannot be opened")
+    if rc != 0:
+        return obs, "exit code %d: %s" % (rc, err[-300:])
+    texts = []
+    try:
+        if c["out"]:
+            if out.strip():
+                return obs, "output written on stdout although --out names a file"
+            for fn in c["out"]:
+                p = os.path.join(od, fn)
+                if not os.path.exists(p):
+                    return obs, "output file %s is missing (found %s)" % (fn, sorted(os.listdir(od)))
+                texts.append(open(p, "rb").read())
+            if sorted(os.listdir(od)) != sorted(c["out"]):
+                return obs, "unexpected output files %s" % sorted(os.listdir(od))
+        else:
+            texts.append(out)
+        if c["gz"]:
+            texts = [gzip.decompress(t) for t in texts]
+        parsed = [parse_out(t.decode("latin1"), c["fmt"] if not c["fmt"].startswith("set:") else "fasta") for t in texts]
+    except Exception as ex:
+        return obs, "output is not well formed %s%s: %r" % (c["fmt"], " (gzip)" if c["gz"] else "", ex)
+    got = [i for i, _, _ in parsed[0]]
+    obs.update(n=len(got), first=got[:8])
+    if c["fmt"].startswith("set:"):
+        exp = c["fmt"][4:].split(",")
+        if sorted(got) != sorted(exp):
+            return obs, "--no-order: the records delivered are not exactly the records of the inputs"
+        for key in ("T", "X", "Y"):
+            mine = [i for i, _ in R[key]]
+            if [i for i in got if i in set(mine)] != mine:
+                return obs, "--no-order: the records of one input file are not in their order"
+        return obs, None
+    if got != c["exp"]:
+        return obs, "ids differ from the expected records in input order (%d delivered, %d expected; first difference at %s)" % (
+            len(got), len(c["exp"]), next((k for k, (a, b) in enumerate(zip(got, c["exp"])) if a != b), min(len(got), len(c["exp"]))))
+    for i, a, q in parsed[0]:
+        if i in seqs and q.lower() != seqs[i]:
+            return obs, "record %s: sequence differs from the input" % i
+    if len(parsed) == 2:      # paired output: the k-th record of _R2 is the mate of the k-th record of _R1
+        if [i for i, _, _ in parsed[1]] != c["exp"]:
+            return obs, "the file of mates does not hold the mates of the forward file, in order"
+        m1, m2 = dict(R["P1"]), dict(R["P2"])
+        for (i, _, q1), (_, _, q2) in zip(parsed[0], parsed[1]):
+            if q1.lower() != m1[i] or q2.lower() != m2[i]:
+                return obs, "pair %s: the sequences are not those of the two input files" % i
+    if c["attrs"] == "k":
+        bad = [i for n, (i, a, _) in enumerate(parsed[0]) if a.get("k") != n]
+        if bad:
+            return obs, "attribute k of the title line lost or altered on %d records (first %s)" % (len(bad), bad[0])
+    if c["attrs"] in ("chain", "cond60"):
+        for n, (i, a, q) in enumerate(parsed[0]):
+            sel = c["attrs"] == "chain" or len(q) >= 60
+            if sel and a != {"j": n, "seq_length": len(q)}:
+                return obs, "record %s: the chained annotation workers (rename k to j, then add seq_length) did not all run once (attributes %s)" % (i, a)
+            if not sel and a != {"k": n}:
+                return obs, "record %s is not selected: it must pass unchanged (attributes %s)" % (i, a)
+    return obs, None
+
+
+def e2e3(ctx, broken):
+    bindir, err = ctx.build_cmds(["obiconvert", "obigrep", "obiannotate"])
+    if bindir is None:
+        broken.append(dict(kind="command-build", detail=err))
+        return
+    wd = os.path.join(vlib.BUILD, "c03_e2e3_" + hashlib.sha1(vlib.REPO.encode()).hexdigest()[:8])
+    R, texts = e2e3_files(ctx, wd)
+    cases = e2e3_cases(ctx, R)
+    from concurrent.futures import ThreadPoolExecutor
+    with ThreadPoolExecutor(max_workers=3) as ex:
+        res = list(ex.map(lambda kc: e2e3_run(bindir, wd, R, kc[1], kc[0]), enumerate(cases)))
+    nbad = 0
+    for k, (c, (obs, why)) in enumerate(zip(cases, res)):
+        if why:
+            nbad += 1
+            if nbad <= 3:
+                ctx.violation("e2e3_%d" % k, dict(property="C03", kind="e2e3", case=dict(cmd=c["cmd"], args=c["args"], stdin=c["stdin"]), index=k, seed=ctx.seed, tier=ctx.tier,
+                                                 inputs={fn: texts[fn] for fn in set(c["args"]) | {c["stdin"]} if fn in texts and len(texts[fn]) < 4000},
+                                                 implementation=obs, expected=why,
+                                                 note="inputs are regenerated from the seed: replay re-runs this command of the round-3 end-to-end list"))
+    ctx.cov["e2e3_command_runs"] = len(cases)
+    ctx.cov["e2e3_grid"] = ("command-line glue of obiconvert / obigrep / obiannotate: directories, a named file without a sequence-file extension before / after a "
+                            "directory, a file named twice, a missing file (exit code), --no-order; input formats fasta / fastq / genbank / embl given or guessed, from a "
+                            "file and from standard input, empty standard input; OBI / json title lines in and out; fasta / fastq / json output, --compress, --out, "
+                            "paired _R1/_R2 files in every format; progress bar on (stderr a character device); obiannotate chaining one worker per option")
+
 # ----------------------------------------------------------------------------------------------- race detector (thorough)
 def race_run(ctx, cases):
     """Thorough tier: the same cases through a -race build of the harness. Reports are summarised in the evidence
@@ -818,8 +1412,10 @@ def evaluate(ctx, cases, broken, label, report=True):
     # a case that missed its deadline on a machine that stalled the harness process (overloaded host, throttled cgroup) is run
     # again, alone in a fresh process with a longer deadline; a genuine hang (CopyTee before its fix, a missing Done) is
     # deterministic and fails again
+    # (and a case that saw a log.Fatal it must not see: a straggling worker of the PREVIOUS, fatal, case may have failed late)
     stalled = [i for i, (c, o) in enumerate(zip(cases, obs))
-               if o.get("kind") == "ok" and not o.get("term") and not o.get("fatal") and not known_key(c, o) and oracle(c, o)]
+               if o.get("kind") == "ok" and not o.get("term") and not known_key(c, o) and oracle(c, o) and
+               (not o.get("fatal") or (i > 0 and obs[i - 1].get("fatal")))]
     if 0 < len(stalled) <= 20:
         for i in stalled:
             o2 = ctx.vh_robust("c03", [dict(wire(cases[i]), dl=30000)], timeout=120, one_timeout=120)[0]
@@ -844,9 +1440,18 @@ def evaluate(ctx, cases, broken, label, report=True):
     if bad is None:
         broken.append(dict(kind="correspondence", detail=err))
         return obs, [], nviol
+    # round 3: the cases of Model3.v (mismatches3) and the file-list loader (expand_mismatches; symbolic links: oracle only)
+    idx3 = [i for i, (c, o) in enumerate(zip(cases, obs)) if o["kind"] != "crash" and (c["op"] in OPC3 or c["op"] in ("chain", "chain_brk", "cond_err", "cond_err_brk", "accessors"))]
+    idxe = [i for i, (c, o) in enumerate(zip(cases, obs)) if o["kind"] == "ok" and c["op"] == "expand" and all(n["kind"] != "l" for n in c["tree"])]
+    bad3, err3 = ctx.correspond(label + "_r3", IMPORTS3, [case_term3(cases[i], obs[i]) for i in idx3], fn="mismatches3", shard=150)
+    bade, erre = ctx.correspond(label + "_expand", IMPORTS3, [expand_term(cases[i], obs[i]) for i in idxe], fn="expand_mismatches", shard=150)
+    if bad3 is None or bade is None:
+        broken.append(dict(kind="correspondence", detail=err3 or erre))
+        return obs, [], nviol
+    extra_bad = [idx3[i] for i in bad3] + [idxe[i] for i in bade]
     # protocol traces: the events logged by the real iterators must be a complete run of a well-formed instance of the
     # process model (C03_protocol_* theorems), replayed by vm_compute
-    tidx = [i for i in idx if obs[i].get("trace") and obs[i]["kind"] == "ok" and obs[i]["term"] and not obs[i].get("fatal")]
+    tidx = [i for i in sorted(idx + idx3) if obs[i].get("trace") and obs[i]["kind"] == "ok" and obs[i]["term"] and not obs[i].get("fatal")]
     tbad, terr = ctx.correspond(label + "_trace", IMPORTS, ["(%s,%s)" % (shape_of(cases[i]), trace_term(obs[i]["trace"])) for i in tidx], fn="trace_mismatches", shard=150)
     if tbad is None:
         broken.append(dict(kind="correspondence", detail=terr))
@@ -874,14 +1479,16 @@ def evaluate(ctx, cases, broken, label, report=True):
             broken.append(dict(kind="correspondence", name="corr:C03/protocol-trace/%s" % cases[i]["op"], first_diverging_case=cases[i],
                                implementation=obs[i], n_diverging=len(tbad),
                                detail="the Add/Done/Wait/Push/Close/End events logged by the real iterators are not a complete run of a well-formed protocol instance"))
-    return obs, [idx[i] for i in bad], nviol
+    return obs, sorted([idx[i] for i in bad] + extra_bad), nviol
 
 
 def shape_of(c):
     """the row of the table combinator -> protocol instance (Model.v, inst_*) that the trace of this case must contain"""
     op, nw = c["op"], max(c.get("nw", 1), 1)
     if op in ("worker", "worker_sorted", "condworker", "condworker_sorted", "sliceworker", "filteron", "filterand", "filteron_p", "filterand_p",
-              "pipeline", "fragments", "fragments_p"):
+              "pipeline", "fragments", "fragments_p", "chain", "chain_brk", "cond_err", "cond_err_brk", "pipeparts", "rebatch_filter", "pairto_filteron", "pairto_filterand"):
+        return "ShStd %d" % nw
+    if op == "readfiles_par":        # Add(readers), one Done per reader goroutine, whatever the number of files
         return "ShStd %d" % nw
     if op == "pool":
         return "ShStd %d" % max(len(c["streams"]), 1)
@@ -917,6 +1524,19 @@ def run(ctx, broken):
         k = "%s/%s" % (c["op"], o["kind"] if o["kind"] != "ok" else ("ok" if o["term"] else "hang"))
         dist[k] = dist.get(k, 0) + 1
     ctx.cov["distribution"] = dist
+    kl = {}
+    for c in cases:
+        if c.get("klass"):
+            kl[c["klass"]] = kl.get(c["klass"], 0) + 1
+    kl["files-x-readers pairs"] = len({(len(c["streams"]), c["nw"]) for c in cases if c["op"] == "readfiles_par"})
+    kl["expand: trees / with a directory argument / with a missing argument / with symbolic links"] = "%d / %d / %d / %d" % (
+        sum(c["op"] == "expand" for c in cases), sum(c["op"] == "expand" and any(n["kind"] == "d" and n["path"] in c["args"] for n in c["tree"]) for c in cases),
+        sum(c["op"] == "expand" and any(a not in {n["path"] for n in c["tree"]} for a in c["args"]) for c in cases),
+        sum(c["op"] == "expand" and any(n["kind"] == "l" for n in c["tree"]) for c in cases))
+    kl["workers that fail: chains with a failing record / fatal (breakOnError)"] = "%d / %d" % (
+        sum((c["op"] in ("chain", "chain_brk") and chain_ref(c)[0]) or (c["op"] in ("cond_err", "cond_err_brk") and cond_ref(c)[0]) for c in cases),
+        sum(c["op"] in ("chain_brk", "cond_err_brk") and bool(o.get("fatal")) for c, o in zip(cases, obs)))
+    ctx.cov["input_classes"] = kl
     ctx.cov["workers"] = sorted({c["nw"] for c in cases})
     ctx.samples = [dict(case=c, implementation={k: v for k, v in o.items() if k != "trace"}) for c, o in list(zip(cases, obs))[30:33] + list(zip(cases, obs))[-2:]]
     ctx.cov["model_vs_impl_mismatches"] = len(mism)
@@ -932,6 +1552,7 @@ def run(ctx, broken):
     stress(ctx, broken)
     e2e(ctx, broken)
     e2e2(ctx, broken)
+    e2e3(ctx, broken)
     if not ctx.quick:
         race_run(ctx, cases[:6000])
 
@@ -977,6 +1598,20 @@ def replay(ctx, rp):
         n0 = len(ctx.violations)
         e2e2(ctx, [])
         print("replay: round-2 end-to-end grid ->", "holds" if len(ctx.violations) == n0 else ctx.violations[n0:])
+        return
+    if rp.get("kind") == "e2e3":
+        ctx.seed, ctx.tier = rp.get("seed", ctx.seed), rp.get("tier", ctx.tier)
+        import random
+        ctx.rng = random.Random(ctx.seed * 1000003 + 3)
+        gen_cases(ctx)          # consume the generator exactly as run() does before e2e3
+        e2e_cases(ctx)
+        e2e2_files(ctx, os.path.join(vlib.BUILD, "c03_e2e2_replay_in"))
+        bindir, err = ctx.build_cmds(["obiconvert", "obigrep", "obiannotate"])
+        wd = os.path.join(vlib.BUILD, "c03_e2e3_replay")
+        R, texts = e2e3_files(ctx, wd)
+        cs = e2e3_cases(ctx, R)
+        obs, why = e2e3_run(bindir, wd, R, cs[rp["index"]], rp["index"])
+        print("replay:", c["cmd"], " ".join(c["args"]), "->", json.dumps(obs), "| oracle:", why or "holds")
         return
     if rp.get("kind") == "e2e":
         bindir, err = ctx.build_cmds([c["cmd"]])
